@@ -52,6 +52,8 @@ func runC08(e *Env) {
 	ruleC08Bytes(e)
 	ruleC08Object(e)
 	e.S.Floor("C08.object", 7)
+	ruleC08Mint(e)
+	e.S.Floor("C08.mint", 10)
 	ruleC08Kind(e, "C08.max")
 	e.S.Floor("C08.bytes", 24)
 	e.S.Floor("C08.ovf", 8)
@@ -833,5 +835,74 @@ func ruleC08Kind(e *Env, rule string) {
 		e.S.Ok(rule, site, "Kind", "= "+out.Ret.String(), e.Pos(fn))
 	default:
 		e.S.Bad(rule, site, "Kind", "Kind computes "+out.Ret.String()+", documented reflect.TypeOf(value).Kind()", e.Pos(fn), "type Blocks uint16")
+	}
+}
+
+// ruleC08Mint: who may turn a number into a size and a size into a number. A Size is an unsigned 64-bit count:
+// uint64 ↔ Size is value-preserving and may stand anywhere; from any other type a number becomes a size only inside
+// the checked constructor (newSize: sign, integrality, overflow), and a size becomes a number of any other type only
+// inside the checked accessor (Bytes: reports whether it fits). A conversion elsewhere — Size(v) with v an int64 in a
+// new Scan method, int64(s) in a new Value method — wraps negative numbers or sizes above the target's range without
+// any of the decided tests.
+func ruleC08Mint(e *Env) {
+	const rule = "C08.mint"
+	sp := e.P.ByName["size"]
+	if sp == nil || sp.Type("Size") == nil {
+		return
+	}
+	sizeT := sp.Type("Size").Type()
+	ns, by := e.F("size", "newSize"), e.F("size", "Bytes")
+	isU64 := func(t types.Type) bool {
+		b, ok := t.Underlying().(*types.Basic)
+		return ok && b.Kind() == types.Uint64
+	}
+	ord := map[string]int{}
+	for _, fn := range flow.SortedFuncs(e.C.AllRepoFuncs()) {
+		if fn.Pkg != sp {
+			continue
+		}
+		o := flow.Origin(fn)
+		if o != fn {
+			continue
+		}
+		for _, b := range fn.Blocks {
+			for _, in := range b.Instrs {
+				var from, to types.Type
+				var x ssa.Value
+				switch c := in.(type) {
+				case *ssa.Convert:
+					from, to, x = c.X.Type(), c.Type(), c.X
+				case *ssa.ChangeType:
+					from, to, x = c.X.Type(), c.Type(), c.X
+				case *ssa.MultiConvert:
+					from, to, x = c.X.Type(), c.Type(), c.X
+				default:
+					continue
+				}
+				toSize, fromSize := types.Identical(to, sizeT), types.Identical(from, sizeT)
+				if toSize == fromSize {
+					continue
+				}
+				if _, isConst := x.(*ssa.Const); isConst {
+					continue
+				}
+				site := flow.FnName(fn)
+				kind := fmt.Sprintf("%s <- %s", types.TypeString(to, types.RelativeTo(sp.Pkg)), types.TypeString(from, types.RelativeTo(sp.Pkg)))
+				ord[site+kind]++
+				construct := fmt.Sprintf("%s #%d", kind, ord[site+kind])
+				switch {
+				case toSize && isU64(from), fromSize && isU64(to):
+					e.S.Ok(rule, site, construct, "uint64 ↔ Size: value-preserving", e.posOf(in))
+				case toSize && o == ns:
+					e.S.Ok(rule, site, construct, "inside the checked constructor (C08.ovf)", e.posOf(in))
+				case fromSize && o == by:
+					e.S.Ok(rule, site, construct, "inside the checked accessor (C08.bytes)", e.posOf(in))
+				case toSize:
+					e.S.Bad(rule, site, construct, "a number of a type other than uint64 becomes a Size outside the checked constructor: a negative or fractional value, or one beyond 64 bits, wraps instead of being refused", e.posOf(in), "a negative int64")
+				default:
+					e.S.Bad(rule, site, construct, "a Size is converted to a type that cannot hold every size outside the checked accessor Bytes: sizes beyond that type's range come out wrapped or negative", e.posOf(in), "Size(1<<63)")
+				}
+			}
+		}
 	}
 }
